@@ -589,7 +589,7 @@ theorem accClose_sum (n : NetSt) (now : Int) (a : String) (va : SockV) (ac : Acc
     let r := n.accClose now a
     r.1.cfg = n.cfg ∧ r.1.fwds.length = n.fwds.length ∧ r.1.chans.length = n.chans.length
     ∧ r.1.reg.tcp = (if va.bound.isDefault then n.reg.tcp else simUnbind n.reg.tcp a va.bound)
-    ∧ (∀ o, r.1.sv o = if o = a then some ⟨false, {}, none, none, none, some { ac with queueLimit := -1, acceptOp := none }⟩ else n.sv o)
+    ∧ (∀ o, r.1.sv o = if o = a then some ⟨false, {}, none, none, none, some { ac with queueLimit := -1, conns := [], acceptOp := none }⟩ else n.sv o)
     ∧ (∀ c, r.1.cv c = n.cv c)
     ∧ (∀ g, r.1.fwdTarget g = if va.fwd = some g then none else n.fwdTarget g)
     ∧ okPosts r.2 = [] ∧ (∀ q ∈ forwards r.2, q.ty = .err) := by
@@ -607,16 +607,26 @@ theorem accClose_sum (n : NetSt) (now : Int) (a : String) (va : SockV) (ac : Acc
   generalize (n.setTcp a s1).tcpClose now a = r at *
   obtain ⟨n2, e2⟩ := r
   simp only at c1 c2 c3 c4 c5 c6 c7 c8 c9 ⊢
-  refine ⟨c1, c2, c3, c4, ?_, c6, c7, ?_, ?_⟩
+  have hv2 : n2.sv a = some ⟨false, {}, none, none, none, some { ac with queueLimit := -1, acceptOp := none }⟩ := by
+    rw [c5 a, if_pos rfl]
+  obtain ⟨d1, d2, d3, d4, d5, d6, d7⟩ := accCheckQueue_closed n2 now a _ _ hv2 rfl rfl
+  generalize n2.accCheckQueue now a = r at *
+  obtain ⟨n3, e3⟩ := r
+  simp only at d1 d2 d3 d4 d5 d6 d7 ⊢
+  refine ⟨by rw [d1, c1]; rfl, by rw [d2, c2]; rfl, by rw [d3, c3]; rfl, by rw [d4, c4]; rfl, ?_, ?_, ?_, ?_, ?_⟩
   · intro o
-    rw [c5 o]
+    rw [d5 o]
     split
     · rfl
-    · rename_i h; rw [sv_setTcp, if_neg h]
-  · rw [okPosts_append, b2, c8]; rfl
+    · rename_i h; rw [c5 o, if_neg h, sv_setTcp, if_neg h]
+  · intro c; simp only [NetSt.cv, NetSt.chan?, d3] ; exact c6 c
+  · intro g; simp only [NetSt.fwdTarget, d2]; exact c7 g
+  · rw [okPosts_append, okPosts_append, b2, c8, d6]; rfl
   · intro q hq
-    rw [forwards_append, b3, List.nil_append] at hq
-    exact c9 q hq
+    rw [forwards_append, forwards_append, b3, List.nil_append] at hq
+    rcases List.mem_append.mp hq with hq | hq
+    · exact c9 q hq
+    · exact d7 q hq
 
 theorem accListen_sum (n : NetSt) (a : String) (qs : Int) (va : SockV) (ac : AccState)
     (hv : n.sv a = some va) (hac : va.acc = some ac) :
@@ -642,5 +652,177 @@ theorem accIncoming_syn (n : NetSt) (now : Int) (a : String) (pk : Pkt) (c : Nat
       = (n.setTcp a { s0 with acc := some { ac with conns := ac.conns ++ [c] } }).accCheckQueue now a := by
   unfold NetSt.accIncoming
   simp only [hs, hty, hc, hac]
+
+theorem tcpIncoming_synack (tp : TParams) (n : NetSt) (now : Int) (name : String) (pk : Pkt) (v : SockV)
+    (hv : n.sv name = some v) (hty : pk.ty = .synack) :
+    (v.connectH = none → n.tcpIncoming tp now name pk = (n, []))
+    ∧ (∀ hh, v.connectH = some hh → ∃ s0, n.tcp? name = some s0 ∧ s0.view = v ∧
+        n.tcpIncoming tp now name pk
+          = (n.setTcp name { s0 with connectH := none }, [.post { h := hh, ec := .ok }, .tcpWake name])) := by
+  obtain ⟨s0, hs0, hv0⟩ := sv_some hv
+  have hc : s0.connectH = v.connectH := congrArg SockV.connectH hv0
+  constructor
+  · intro hn
+    unfold NetSt.tcpIncoming
+    simp only [hs0, hty, hc, hn]
+  · intro hh hn
+    refine ⟨s0, hs0, hv0, ?_⟩
+    unfold NetSt.tcpIncoming
+    simp only [hs0, hty, hc, hn]
+
+/-! ### `async_connect` in stages (same text as `NetSt.tcpConnect`; `tcpConnect_eq` checks it) -/
+
+/-- the implicit bind to the wildcard of the target's family, ephemeral port -/
+def connBind (n : NetSt) (name : String) (s : TcpSock) (target : Ep) : NetSt × Ec :=
+  if s.bound.addr == "0.0.0.0" then
+    let anyEp : Ep := { addr := if target.isV4 then "0.0.0.0" else "::", port := 0 }
+    match ioResolve (n.cfg.ipsOf s.node) anyEp with
+    | .error e => (n, e)
+    | .ok ep1 =>
+      let (tbl, np, r) := simBind n.reg.tcp n.reg.nextPort name ep1
+      let n := { n with reg := { n.reg with tcp := tbl, nextPort := np } }
+      match r with
+      | .error e => (n, e)
+      | .ok ep2 => (n.setTcp name { s with bound := ep2 }, .ok)
+  else (n, .ok)
+
+/-- the family check, `internal_connect`, and what becomes of the handler -/
+def connDial (n : NetSt) (name : String) (target : Ep) (h : Nat) (e0 : List NEff) : NetSt × List NEff :=
+  match n.tcp? name with
+  | none => (n, e0)
+  | some s =>
+    if s.bound.isV4 != target.isV4 then (n, e0 ++ [.post { h := h, ec := .afNoSupport }])
+    else
+      let (n, e1, cid) := n.internalConnect name target
+      let mss := n.cfg.pathMtu s.bound.addr target.addr
+      match n.tcp? name with
+      | none => (n, e0)
+      | some s =>
+        let s := { s with mss := mss, cwnd := mss * 2 }
+        match cid with
+        | none =>
+          (n.setTcp name { s with chan := none },
+            e0 ++ e1 ++ [.armAfter name 0 50000000 (.tcpConnectRefused name h)])
+        | some c => (n.setTcp name { s with chan := some c, connectH := some h }, e0 ++ e1)
+
+theorem tcpConnect_eq (n : NetSt) (now : Int) (name : String) (target : Ep) (h : Nat) (s0 : TcpSock)
+    (hs0 : n.tcp? name = some s0) :
+    n.tcpConnect now name target h =
+      (match (if !s0.isOpen then n.tcpOpen now name target.isV4 else (n, [])) with
+       | (n1, e0) =>
+         match n1.tcp? name with
+         | none => (n1, e0)
+         | some s =>
+           match connBind n1 name s target with
+           | (n2, ecb) =>
+             if ecb != .ok then (n2, e0 ++ [.post { h := h, ec := ecb }]) else connDial n2 name target h e0) := by
+  unfold NetSt.tcpConnect connBind connDial
+  simp only [hs0]
+  rfl
+
+theorem probePort_free (tbl : List (Ep × String)) (addr : String) :
+    ∀ fuel port p, probePort tbl addr fuel port = some p → tbl.lookup { addr := addr, port := p } = none := by
+  intro fuel
+  induction fuel with
+  | zero => intro port p h; simp [probePort] at h
+  | succ f ih =>
+    intro port p h
+    unfold probePort at h
+    split at h
+    · split at h
+      · cases h
+      · exact ih _ _ h
+    · rename_i hn
+      cases h
+      cases hl : tbl.lookup { addr := addr, port := port } with
+      | none => rfl
+      | some x => simp [hl] at hn
+
+theorem simBind_sum (tbl : List (Ep × String)) (np : Nat) (name : String) (ep : Ep) :
+    (∀ e, (simBind tbl np name ep).2.2 = .error e → (simBind tbl np name ep).1 = tbl)
+    ∧ (∀ ep2, (simBind tbl np name ep).2.2 = .ok ep2 →
+        tbl.lookup ep2 = none ∧ (simBind tbl np name ep).1 = tbl ++ [(ep2, name)]) := by
+  unfold simBind
+  split
+  · exact ⟨fun _ _ => rfl, fun _ h => by cases h⟩
+  · split
+    · cases hp : probePort tbl ep.addr 65536 np with
+      | none => exact ⟨fun _ _ => rfl, fun _ h => by cases h⟩
+      | some port =>
+        refine ⟨fun _ h => (by cases h), fun ep2 h => ?_⟩
+        simp only [Except.ok.injEq] at h; subst h
+        exact ⟨probePort_free tbl ep.addr _ _ _ hp, rfl⟩
+    · split
+      · exact ⟨fun _ _ => rfl, fun _ h => by cases h⟩
+      · rename_i hn
+        refine ⟨fun _ h => (by cases h), fun ep2 h => ?_⟩
+        simp only [Except.ok.injEq] at h; subst h
+        refine ⟨?_, rfl⟩
+        cases hl : tbl.lookup ep with
+        | none => rfl
+        | some x => simp [hl] at hn
+
+theorem connBind_sum (n : NetSt) (name : String) (s : TcpSock) (target : Ep) :
+    let r := connBind n name s target
+    r.1.cfg = n.cfg ∧ r.1.fwds = n.fwds ∧ r.1.chans = n.chans ∧
+    ((r.1.reg.tcp = n.reg.tcp ∧ (∀ o, r.1.tcp? o = n.tcp? o))
+     ∨ (r.2 = .ok ∧ ∃ ep2, n.reg.tcp.lookup ep2 = none ∧ r.1.reg.tcp = n.reg.tcp ++ [(ep2, name)]
+          ∧ ∀ o, r.1.tcp? o = if o = name then some { s with bound := ep2 } else n.tcp? o)) := by
+  unfold connBind
+  split
+  · simp only
+    cases hio : ioResolve (n.cfg.ipsOf s.node) { addr := if target.isV4 = true then "0.0.0.0" else "::", port := 0 } with
+    | error e => exact ⟨rfl, rfl, rfl, Or.inl ⟨rfl, fun _ => rfl⟩⟩
+    | ok ep1 =>
+      simp only
+      obtain ⟨b1, b2⟩ := simBind_sum n.reg.tcp n.reg.nextPort name ep1
+      generalize simBind n.reg.tcp n.reg.nextPort name ep1 = sb at *
+      obtain ⟨tbl, np, r⟩ := sb
+      simp only at b1 b2 ⊢
+      cases r with
+      | error e =>
+        have := b1 e rfl; subst this
+        exact ⟨rfl, rfl, rfl, Or.inl ⟨rfl, fun _ => rfl⟩⟩
+      | ok ep2 =>
+        obtain ⟨c1, c2⟩ := b2 ep2 rfl
+        subst c2
+        exact ⟨rfl, rfl, rfl, Or.inr ⟨rfl, ep2, c1, rfl, fun o => by rw [tcp?_setTcp]; rfl⟩⟩
+  · exact ⟨rfl, rfl, rfl, Or.inl ⟨rfl, fun _ => rfl⟩⟩
+
+theorem connDial_sum (n : NetSt) (name : String) (target : Ep) (h : Nat) (e0 : List NEff) (s : TcpSock)
+    (hs : n.tcp? name = some s) :
+    let r := connDial n name target h e0
+    (r.1 = n ∧ r.2 = e0 ++ [.post { h := h, ec := .afNoSupport }])
+    ∨ (¬ n.Listening target
+        ∧ r.1 = n.setTcp name { s with mss := n.cfg.pathMtu s.bound.addr target.addr,
+                                       cwnd := n.cfg.pathMtu s.bound.addr target.addr * 2, chan := none }
+        ∧ r.2 = e0 ++ [.armAfter name 0 50000000 (.tcpConnectRefused name h)])
+    ∨ (n.Listening target
+        ∧ r.1 = (n.internalConnect name target).1.setTcp name
+                  { s with mss := n.cfg.pathMtu s.bound.addr target.addr,
+                           cwnd := n.cfg.pathMtu s.bound.addr target.addr * 2,
+                           chan := some n.chans.length, connectH := some h }
+        ∧ r.2 = e0 ++ (n.internalConnect name target).2.1) := by
+  unfold connDial
+  simp only [hs]
+  split
+  · exact Or.inl ⟨rfl, rfl⟩
+  · right
+    by_cases hl : n.Listening target
+    · right
+      obtain ⟨rname, rs, l1, l2, l3⟩ := hl
+      obtain ⟨c1, c2, _, _, c5, _, _, _⟩ := internalConnect_ok n name target s.view rname rs.view
+        (by simp [NetSt.sv, hs]) l1 (by simp [NetSt.sv, l2]) (by rw [← isListening_view]; exact l3)
+      generalize n.internalConnect name target = r at *
+      obtain ⟨n1, e1, cid⟩ := r
+      simp only at c1 c2 c5 ⊢
+      subst c1
+      rw [c5 name, hs]
+      simp only [c2]
+      exact ⟨⟨rname, rs, l1, l2, l3⟩, trivial, trivial⟩
+    · left
+      rw [internalConnect_refused n name target hl]
+      simp only [hs, List.append_nil]
+      exact ⟨hl, trivial, trivial⟩
 
 end SimVerif
